@@ -702,10 +702,93 @@ func (e *e3) lenLowerBoundIn(s ssa.Value, at *ssa.BasicBlock, conds []cond) (int
 			}
 		}
 	}
+	// container is a field (chain) of a parameter: every call site must establish the length
+	if best == 0 || why == "" {
+		if lb, w, ok := e.lenViaCallers(s, at); ok && lb > best {
+			best, why = lb, w
+		}
+	}
 	if exact > 0 && best >= 1 && exact > best {
 		best, why = exact, fmt.Sprintf("FindStringSubmatch on a constant pattern returns nil or exactly %d elements; empty result excluded (%s)", exact, why)
 	}
 	return best, why
+}
+
+// lenViaCallers: s is an access path rooted at a parameter of its function
+// (e.g. stsd.Children with parameter stsd); returns the minimum over all call
+// sites of the length lower bound that holds there for the translated path.
+func (e *e3) lenViaCallers(s ssa.Value, at *ssa.BasicBlock) (int64, string, bool) {
+	key := exprKey(s)
+	fn := at.Parent()
+	var prm *ssa.Parameter
+	idx := -1
+	for i, q := range fn.Params {
+		pk := "p:" + q.Name()
+		if strings.Contains(key, pk+".") {
+			prm, idx = q, i
+		}
+	}
+	if prm == nil {
+		return 0, "", false
+	}
+	sites := e.p.callersOf(fn)
+	if len(sites) == 0 {
+		return 0, "", false
+	}
+	best := int64(-1)
+	for _, site := range sites {
+		if !e.p.isRepoFunc(site.Parent()) {
+			return 0, "", false
+		}
+		cc := site.Common()
+		args := cc.Args
+		if cc.IsInvoke() {
+			args = append([]ssa.Value{cc.Value}, args...)
+		}
+		if idx >= len(args) {
+			return 0, "", false
+		}
+		ak := exprKey(args[idx])
+		if ak == "" {
+			return 0, "", false
+		}
+		tkey := strings.Replace(key, "p:"+prm.Name(), ak, 1)
+		lb := e.lenLowerBoundByKey(tkey, site.Block())
+		if best < 0 || lb < best {
+			best = lb
+		}
+	}
+	if best <= 0 {
+		return 0, "", false
+	}
+	return best, fmt.Sprintf("established at all %d call sites of %s", len(sites), shortFn(fn)), true
+}
+
+// lenLowerBoundByKey: lower bound of len(<expression with this key>) from the
+// conditions holding at block `at` (minimum over feasible paths).
+func (e *e3) lenLowerBoundByKey(key string, at *ssa.BasicBlock) int64 {
+	f := factsOf(at.Parent())
+	best := int64(-1)
+	for _, set := range f.condSets(at) {
+		if !e.rg.feasible(set, 0) {
+			continue
+		}
+		lb := int64(0)
+		for _, c := range set {
+			if bo, ok := c.V.(*ssa.BinOp); ok {
+				if v := e.lenCond(bo, c.Pos, nil, key); v > lb {
+					lb = v
+				}
+			}
+		}
+		if best < 0 || lb < best {
+			best = lb
+		}
+	}
+	if best < 0 {
+		return 0
+	}
+	return best
 }
 
 // elemLenContract: s is an element of the result of (*regexp.Regexp).FindAllStringIndex
@@ -731,7 +814,7 @@ func (e *e3) elemLenContract(s ssa.Value) (int64, bool) {
 }
 
 func sameOrKey(a, s ssa.Value, key string) bool {
-	if a == s {
+	if s != nil && a == s {
 		return true
 	}
 	return key != "" && key[0] != '@' && exprKey(a) == key
@@ -1109,6 +1192,10 @@ func (e *e3) sliceSite(rule string, fn *ssa.Function, b *ssa.BasicBlock, x *ssa.
 				continue
 			}
 			construct := fmt.Sprintf("slice:%s[%s=%d]", roleKey(x.X), bd.name, k)
+			if why, ok := reviewedException(rule+"1", shortFn(fn), construct); ok {
+				e.r.Exception(rule+"1", shortFn(fn), construct, pos, why)
+				continue
+			}
 			lb, why := e.lenLowerBound(x.X, b)
 			// also capacity for high bound on slices; use len as the safe requirement
 			e.r.Decide(lb >= k, rule+"1", shortFn(fn), construct, pos, fmt.Sprintf("len >= %d: %s", lb, why),
@@ -1238,6 +1325,16 @@ var reviewedExceptions = []exceptionEntry{
 		reason: "reached for audio representations only, which are registered only with a non-nil, non-zero constant sample duration", premise: verifyAudioSampleDurGuard},
 	{rule: "E3-D2", fn: "(*recv.ChannelMgr).AddChannel", constructPrefix: "deref:load(recv.ChannelMgr.cfg)",
 		reason: "the receiver is always constructed with a non-nil configuration (GetEmptyConfig or a successfully read file in Run); the nil test above is defensive"},
+	{rule: "E3-B1", fn: "(*recv.channel).receivedSegData", constructPrefix: "index:load(recv.segDataBuffer.items)[",
+		reason: "circular-buffer invariant _nrItems <= len(items) (maintained by add/resize/drop); the indices 0 and 1 are guarded by nrItems() >= 2; buffer internals are outside classes B1-B3"},
+	{rule: "E3-B1", fn: "(*recv.channel).deriveAndSetFrameRates", constructPrefix: "index:load(recv.segDataBuffer.items)[0]",
+		reason: "circular-buffer invariant _nrItems <= len(items); index 0 is guarded by nrItems() != 0"},
+	{rule: "E3-B1", fn: "(*recv.segDataBuffer).add", constructPrefix: "index:load(recv.segDataBuffer.items)[0]",
+		reason: "the buffer is created and resized with size >= 1 (window = tsbd*timescale/segDur + 1)"},
+	{rule: "E3-B1", fn: "(*recv.seqCounters).add", constructPrefix: "index:load(recv.seqCounters.counters)[0]",
+		reason: "the counter window is created and resized with size >= 1 (window = tsbd*timescale/segDur + 1)"},
+	{rule: "E3-B1", fn: "(*recv.seqCounters).add", constructPrefix: "slice:load(recv.seqCounters.counters)[low=1]",
+		reason: "reached only in the insert-in-the-middle loop, which runs for i >= 1, i.e. with at least two counters in a window of size >= 2"},
 	{rule: "E3-D2", fn: "app.chunkSegment", constructPrefix: "deref:param(init)",
 		reason: "reached only after the segment was decoded (seg != nil), which excludes image representations, the only ones loaded without an init segment"},
 	{rule: "E3-B1", fn: "app.shiftTimestamp", constructPrefix: "index:call((*regexp.Regexp).FindStringSubmatch)[",
